@@ -1832,21 +1832,22 @@ def _fresh_matrix(prefix, values):
     return new_vars(f'{prefix}!{k}', values), k
 
 
-@handler('linalg_eigh')
-def h_eigh(func, args, kwargs):
-    """Functional contract stub: e, V = eigh(S) with S = V diag(e) V^T, V^T V = V V^T = I.
-    The contract rows are recorded in trace.contracts (hypotheses for lemma selection).
-    eigh reads only one triangle: symmetry of S is recorded as an OBLIGATION."""
-    S = args[0]
+def _functional_name(prefix, ids):
+    """name derived from the symbolic input, so that equal inputs give equal outputs (congruence)"""
+    import hashlib
+
+    return prefix + '!' + hashlib.sha1(repr(tuple(ids)).encode()).hexdigest()[:10]
+
+
+def _eigh_one(Sv, Sids):
     t = cur()
     d = t.dag
-    if S._ids.dim() != 2:
-        raise UnsupportedOp('eigh on batched symbolic matrices (run one batch element at a time)')
-    ev, V = torch.linalg.eigh(S._v)
-    e_s, k = _fresh_matrix('eig_e', ev)
-    V_s, _ = _fresh_matrix('eig_v', V)
-    n = S._ids.shape[-1]
-    Si = S._ids.tolist()
+    ev, V = torch.linalg.eigh(Sv)
+    key = Sids.reshape(-1).tolist()
+    e_s = new_vars(_functional_name('eig_e', key), ev)
+    V_s = new_vars(_functional_name('eig_v', key), V)
+    n = Sids.shape[-1]
+    Si = Sids.tolist()
     ei = e_s._ids.tolist()
     Vi = V_s._ids.tolist()
     recon = {}
@@ -1870,34 +1871,53 @@ def h_eigh(func, args, kwargs):
             ortho_rows[(i, j)] = d.eq(acc, 1 if i == j else 0)
             ortho_cols[(i, j)] = d.eq(acc2, 1 if i == j else 0)
     sym = d.and_(*[d.eq(Si[i][j], Si[j][i]) for i in range(n) for j in range(i + 1, n)])
-    if not hasattr(t, 'contracts'):
-        t.contracts = []
-    if not hasattr(t, 'known_inverse'):
-        t.known_inverse = {}
-    t.contracts.append({'kind': 'eigh', 'S': S, 'e': e_s, 'V': V_s, 'recon': recon, 'recon_lhs': recon_lhs, 'ortho_rows': ortho_rows,
-                        'ortho_cols': ortho_cols, 'symmetric_obligation': sym})
+    t.contracts.append({'kind': 'eigh', 'S': SymTensor(Sv, Sids), 'e': e_s, 'V': V_s, 'recon': recon,
+                        'recon_lhs': recon_lhs, 'ortho_rows': ortho_rows, 'ortho_cols': ortho_cols,
+                        'symmetric_obligation': sym})
     t.known_inverse[tuple(V_s._ids.reshape(-1).tolist())] = V_s._ids.t().clone()
+    return e_s, V_s
+
+
+@handler('linalg_eigh')
+def h_eigh(func, args, kwargs):
+    """Functional contract stub: e, V = eigh(S) with S = V diag(e) V^T, V^T V = V V^T = I.
+    The contract rows are recorded in trace.contracts (hypotheses for lemma selection).
+    eigh reads only one triangle: symmetry of S is recorded as an OBLIGATION.
+    Output symbols are named by a hash of the symbolic input (equal inputs -> equal outputs);
+    leading batch dimensions are handled matrix by matrix."""
+    S = args[0]
+    t = cur()
     t.stubs_used.append('linalg.eigh')
-    return torch.return_types.linalg_eigh((e_s, V_s))
+    n = S._ids.shape[-1]
+    if S._ids.dim() == 2:
+        e_s, V_s = _eigh_one(S._v, S._ids)
+        return torch.return_types.linalg_eigh((e_s, V_s))
+    bshape = tuple(S._ids.shape[:-2])
+    Sv = S._v.reshape(-1, n, n)
+    Si = S._ids.reshape(-1, n, n)
+    es, Vs = [], []
+    for b in range(Sv.shape[0]):
+        e_b, V_b = _eigh_one(Sv[b], Si[b])
+        es.append(e_b)
+        Vs.append(V_b)
+    e_all = SymTensor(torch.stack([x._v for x in es]).reshape(bshape + (n,)),
+                      torch.stack([x._ids for x in es]).reshape(bshape + (n,)))
+    V_all = SymTensor(torch.stack([x._v for x in Vs]).reshape(bshape + (n, n)),
+                      torch.stack([x._ids for x in Vs]).reshape(bshape + (n, n)))
+    return torch.return_types.linalg_eigh((e_all, V_all))
 
 
-@handler('inverse', 'linalg_inv')
-def h_inverse(func, args, kwargs):
-    A = args[0]
+def _inverse_one(Av, Aids):
     t = cur()
     d = t.dag
-    key = tuple(A._ids.reshape(-1).tolist())
-    ki = getattr(t, 'known_inverse', {})
-    if key in ki:
+    key = tuple(Aids.reshape(-1).tolist())
+    if key in t.known_inverse:
         # inverse of the orthonormal eigenvector matrix returned by the eigh stub: V^-1 = V^T (contract)
-        ids = ki[key]
-        return SymTensor(torch.linalg.inv(A._v), ids.clone())
-    if A._ids.dim() != 2:
-        raise UnsupportedOp('inverse of batched symbolic matrix')
-    W = torch.linalg.inv(A._v)
-    W_s, _ = _fresh_matrix('inv', W)
-    n = A._ids.shape[-1]
-    Ai = A._ids.tolist()
+        return SymTensor(torch.linalg.inv(Av), t.known_inverse[key].clone())
+    W = torch.linalg.inv(Av)
+    W_s = new_vars(_functional_name('inv', key), W)
+    n = Aids.shape[-1]
+    Ai = Aids.tolist()
     Wi = W_s._ids.tolist()
     left, right = {}, {}
     for i in range(n):
@@ -1908,11 +1928,24 @@ def h_inverse(func, args, kwargs):
                 a2 = d.add(a2, d.mul(Ai[i][m], Wi[m][j]))
             left[(i, j)] = d.eq(a1, 1 if i == j else 0)
             right[(i, j)] = d.eq(a2, 1 if i == j else 0)
-    if not hasattr(t, 'contracts'):
-        t.contracts = []
-    t.contracts.append({'kind': 'inverse', 'A': A, 'W': W_s, 'left': left, 'right': right})
-    t.stubs_used.append('inverse')
+    t.contracts.append({'kind': 'inverse', 'A': SymTensor(Av, Aids), 'W': W_s, 'left': left, 'right': right})
     return W_s
+
+
+@handler('inverse', 'linalg_inv')
+def h_inverse(func, args, kwargs):
+    A = args[0]
+    t = cur()
+    t.stubs_used.append('inverse')
+    n = A._ids.shape[-1]
+    if A._ids.dim() == 2:
+        return _inverse_one(A._v, A._ids)
+    bshape = tuple(A._ids.shape[:-2])
+    Av = A._v.reshape(-1, n, n)
+    Ai = A._ids.reshape(-1, n, n)
+    outs = [_inverse_one(Av[b], Ai[b]) for b in range(Av.shape[0])]
+    return SymTensor(torch.stack([x._v for x in outs]).reshape(bshape + (n, n)),
+                     torch.stack([x._ids for x in outs]).reshape(bshape + (n, n)))
 
 
 @handler('matrix_exp', 'linalg_matrix_exp')
